@@ -11,7 +11,7 @@
 use fv_harness::common::*;
 use std::collections::{BTreeMap, BTreeSet, HashMap};
 use write_fonts::verif_hooks::VGraph;
-use write_fonts::write_verif_hooks::{adjust_offsets, TableType};
+use write_fonts::write_verif_hooks::{with_offset_adjustment as adjust_offsets, TableType};
 use write_fonts::{FontWrite, NullableOffsetMarker, OffsetMarker, TableWriter};
 
 #[derive(Clone, Copy, Debug, PartialEq, Eq, Hash, PartialOrd, Ord)]
